@@ -37,6 +37,49 @@ TRUSTED_BASE = [
 ]
 
 
+def configure_logging():
+    """the properties hold at every log level: the package logger runs at DEBUG (what --verbose selects) so that every log
+    call is executed and its message formatted, but nothing is printed"""
+    import logging
+    logging.disable(logging.NOTSET)
+
+    def quiet_emit(self, record):
+        try:
+            self.format(record)
+        except Exception:
+            self.handleError(record)
+    logging.StreamHandler.emit = quiet_emit
+    logging.FileHandler.emit = quiet_emit
+    logging.raiseExceptions = False
+    lg = logging.getLogger("senaite.astm")
+    lg.setLevel(logging.DEBUG)
+    if not any(isinstance(h, logging.NullHandler) for h in lg.handlers):
+        lg.addHandler(logging.NullHandler())
+    # a handler that formats every record (a NullHandler does not): errors inside a log call's arguments surface
+    if not any(getattr(h, "_verif", False) for h in lg.handlers):
+        h = logging.StreamHandler()
+        h._verif = True
+        lg.addHandler(h)
+    lg.propagate = False
+
+
+class log_level(object):
+    """temporarily run the package logger at another level (the default of the package is INFO, --verbose is DEBUG)"""
+
+    def __init__(self, level):
+        self.level = level
+
+    def __enter__(self):
+        import logging
+        self.lg = logging.getLogger("senaite.astm")
+        self.old = self.lg.level
+        self.lg.setLevel(self.level)
+
+    def __exit__(self, *a):
+        self.lg.setLevel(self.old)
+        return False
+
+
 def seed():
     try:
         return int(os.environ.get("VERIF_SEED", "0"))
